@@ -3,10 +3,12 @@
    operation and query by query, under decidable per-path premises `names_okb` (DESIGN.md Appendix A.3):
 
      for the DAG paths D, days and file keys K a history uses
-       - directory names of distinct DAGs differ, the (escaped) patterns are well-formed and select the DAG's own directory
+       - directory names of distinct DAGs differ, the (escaped) patterns are well-formed and select the DAG's own directory, the DAG
+         path ends in .yaml (AddYamlExtension, which Rename applies, is the identity on it)
        - the glob patterns of a key's DAG match the key's rendered file name (today pattern: iff the day agrees)
        - the time-stamp scan of a key's rendered path finds its start stamp (with milliseconds)
-       - rendering is injective on K; the compaction twin's name is the one jsondb.Compact computes
+       - rendering is injective on K; the compaction twin's name is the one jsondb.Compact computes; no pattern matches the temporary
+         copy <twin>.tmp; only a compacted key's path ends in _c.dat and dropCompacted maps it to the path of its original
    Before the repairs 8ffc003 / e6d6379 names with glob metacharacters or stamp-like substrings falsified these premises
    (F6b / F6c); on the repaired code they satisfy them (Examples in Hist/ProofsC06Ex.v).
    No string reasoning happens beyond these premises (and replace1 on a prefix). *)
@@ -15,12 +17,15 @@ Import ListNotations.
 From BD.Hist Require Import GoMatch Model SModel ProofsLib.
 Open Scope string_scope.
 
+Arguments wopen : simpl never.
+Arguments sopen : simpl never.
+
 Section R.
 Variable loc : string.
 Variable dirhash : string -> string.
 
 Definition rdir (d : string) : string := dirname dirhash d.
-Definition rname (k : skey) : string := fname (k_dag k) (k_stamp k) (k_r8 k) (k_c k).
+Definition rname (k : skey) : string := fname (k_dag k) (k_stamp k) (k_r8 k) (k_c k) ++ (if k_tmp k then ".tmp" else "").
 Definition rpath (k : skey) : string := fpath loc (rdir (k_dag k)) (rname k).
 Definition render_ent (e : sent) : fent := (rdir (k_dag (fst e)), rname (fst e), snd e).
 Definition render_fs (s : sfs) : fs := {| dirs := map rdir (sdirs s); files := map render_ent (sfiles s) |}.
@@ -60,15 +65,24 @@ Definition dag_okb (D : list string) (days : list string) (d : string) : bool :=
   dirsel_okb D d
   && pat_ok d (pat_all d) && pat_ok d (pat_latest d None)
   && forallb (fun day => pat_ok d (pat_latest d (Some day))) days
-  && forallb (fun d' => implb (String.eqb (rdir d) (rdir d')) (String.eqb d d')) D.
+  && forallb (fun d' => implb (String.eqb (rdir d) (rdir d')) (String.eqb d d')) D
+  && String.eqb (add_yaml d) d.
+(* dropCompacted on rendered paths is dropCompacted on keys: only a compacted key's path ends in _c.dat, and the path it
+   stands for is the path of the uncompacted key it is the twin of *)
+Definition orig_okb (K : list skey) (m : skey) : bool :=
+  match orig_of (rpath m) with
+  | Some o => k_c m && forallb (fun k => Bool.eqb (String.eqb o (rpath k)) (negb (k_c k) && negb (k_tmp k) && skey_eqb (twin k) m)) K
+  | None => negb (k_c m)
+  end.
 Definition key_okb (D : list string) (days : list string) (K : list skey) (k : skey) : bool :=
   existsb (String.eqb (k_dag k)) D
-  && obool_eqb (go_match (pat_all (k_dag k)) (rname k)) true
-  && obool_eqb (go_match (pat_latest (k_dag k) None) (rname k)) true
-  && forallb (fun day => obool_eqb (go_match (pat_latest (k_dag k) (Some day)) (rname k)) (String.eqb (take 8 (k_stamp k)) day)) days
-  && String.eqb (find_ts (rpath k)) (k_stamp k)
+  && obool_eqb (go_match (pat_all (k_dag k)) (rname k)) (in_patk PAll k)
+  && obool_eqb (go_match (pat_latest (k_dag k) None) (rname k)) (in_patk (PLatest None) k)
+  && forallb (fun day => obool_eqb (go_match (pat_latest (k_dag k) (Some day)) (rname k)) (in_patk (PLatest (Some day)) k)) days
+  && (k_tmp k || String.eqb (find_ts (rpath k)) (k_stamp k))
   && forallb (fun k' => implb (String.eqb (rname k) (rname k') && String.eqb (k_dag k) (k_dag k')) (skey_eqb k k')) K
-  && (k_c k || String.eqb (trim_ext (rname k) ++ "_c.dat") (rname (twin k))).
+  && (k_c k || k_tmp k || String.eqb (trim_ext (rname k) ++ "_c.dat") (rname (twin k)))
+  && (k_tmp k || orig_okb K k).
 Definition names_okb (D : list string) (days : list string) (K : list skey) : bool :=
   forallb (dag_okb D days) D && forallb (key_okb D days K) K.
 
@@ -101,6 +115,8 @@ Proof.
   - apply String.eqb_eq in E. subst. apply String.eqb_refl.
   - apply String.eqb_neq. intro N. apply nk_dir_inj in N; auto. subst. rewrite String.eqb_refl in E. discriminate.
 Qed.
+Lemma nk_yaml d : In d D -> add_yaml d = d.
+Proof. intros H. dag_facts d H. apply String.eqb_eq. assumption. Qed.
 Lemma nk_pat_all d : In d D -> pat_ok d (pat_all d) = true.
 Proof. intros H. dag_facts d H. assumption. Qed.
 Lemma nk_pat_latest d day : In d D -> (match day with Some x => In x days | None => True end) -> pat_ok d (pat_latest d day) = true.
@@ -115,28 +131,51 @@ Proof.
 Qed.
 Lemma obool_eqb_true a b : obool_eqb a b = true -> a = Some b.
 Proof. destruct a; simpl; intros H; try discriminate. apply Bool.eqb_prop in H. subst. auto. Qed.
-Lemma nk_own_all k : In k K -> go_match (pat_all (k_dag k)) (rname k) = Some true.
+Lemma nk_own_all k : In k K -> go_match (pat_all (k_dag k)) (rname k) = Some (in_patk PAll k).
 Proof. intros H. key_facts k H. apply obool_eqb_true; assumption. Qed.
-Lemma nk_own_latest k : In k K -> go_match (pat_latest (k_dag k) None) (rname k) = Some true.
+Lemma nk_own_latest k : In k K -> go_match (pat_latest (k_dag k) None) (rname k) = Some (in_patk (PLatest None) k).
 Proof. intros H. key_facts k H. apply obool_eqb_true; assumption. Qed.
 Lemma nk_own_day k day : In k K -> In day days ->
-  go_match (pat_latest (k_dag k) (Some day)) (rname k) = Some (String.eqb (take 8 (k_stamp k)) day).
+  go_match (pat_latest (k_dag k) (Some day)) (rname k) = Some (in_patk (PLatest (Some day)) k).
 Proof.
   intros H Hd. key_facts k H.
   match goal with X : forallb (fun day => obool_eqb _ _) days = true |- _ => rewrite forallb_forall in X; apply obool_eqb_true; auto end.
 Qed.
-Lemma nk_scan k : In k K -> find_ts (rpath k) = k_stamp k.
-Proof. intros H. key_facts k H. apply String.eqb_eq; assumption. Qed.
+Lemma nk_scan k : In k K -> k_tmp k = false -> find_ts (rpath k) = k_stamp k.
+Proof.
+  intros H T. key_facts k H.
+  match goal with X : (k_tmp k || String.eqb (find_ts _) _)%bool = true |- _ => rewrite T in X; simpl in X; apply String.eqb_eq; exact X end.
+Qed.
 Lemma nk_inj k k' : In k K -> In k' K -> rname k = rname k' -> k_dag k = k_dag k' -> k = k'.
 Proof.
   intros H H' E1 E2. key_facts k H.
   match goal with X : forallb (fun k' => implb _ _) K = true |- _ => rewrite forallb_forall in X; specialize (X k' H');
     rewrite E1, E2, !String.eqb_refl in X; simpl in X; apply skey_eqb_eq; exact X end.
 Qed.
-Lemma nk_twin k : In k K -> k_c k = false -> trim_ext (rname k) ++ "_c.dat" = rname (twin k).
+Lemma nk_twin k : In k K -> k_c k = false -> k_tmp k = false -> trim_ext (rname k) ++ "_c.dat" = rname (twin k).
 Proof.
-  intros H C. key_facts k H.
-  match goal with X : (k_c k || _)%bool = true |- _ => rewrite C in X; simpl in X; apply String.eqb_eq; exact X end.
+  intros H C T. key_facts k H.
+  match goal with X : (k_c k || k_tmp k || _)%bool = true |- _ => rewrite C, T in X; simpl in X; apply String.eqb_eq; exact X end.
+Qed.
+Lemma app_empty_r (x : string) : x ++ "" = x.
+Proof. induction x; simpl; auto. f_equal. auto. Qed.
+Lemma sapp_assoc (x y z : string) : (x ++ y) ++ z = x ++ (y ++ z).
+Proof. induction x; simpl; auto. f_equal. auto. Qed.
+Lemma rname_plain d st r c : rname (mkkey d st r c) = fname d st r c.
+Proof. unfold rname. simpl. apply app_empty_r. Qed.
+Lemma rname_tmpk k : k_tmp k = false -> rname (tmpk k) = rname k ++ ".tmp".
+Proof. intros T. unfold rname. simpl. rewrite T, app_empty_r. reflexivity. Qed.
+Lemma nk_orig m k : In m K -> In k K -> k_tmp m = false -> k_tmp k = false ->
+  match orig_of (rpath m) with Some o => String.eqb o (rpath k) | None => false end = negb (k_c k) && skey_eqb (twin k) m.
+Proof.
+  intros Hm Hk Tm Tk. key_facts m Hm.
+  match goal with X : (k_tmp m || orig_okb K m)%bool = true |- _ => rewrite Tm in X; simpl in X; unfold orig_okb in X end.
+  destruct (orig_of (rpath m)) as [o|].
+  - match goal with X : (k_c m && forallb _ K)%bool = true |- _ => apply andb_prop in X; destruct X as [_ X]; rewrite forallb_forall in X;
+      specialize (X k Hk); apply Bool.eqb_prop in X; rewrite X, Tk end. simpl. rewrite andb_true_r. reflexivity.
+  - match goal with X : negb (k_c m) = true |- _ => apply negb_true_iff in X; rename X into Cm end.
+    destruct (skey_eqb (twin k) m) eqn:E; [|rewrite andb_false_r; reflexivity].
+    apply skey_eqb_eq in E. subst m. simpl in Cm. discriminate.
 Qed.
 
 (* the key comparison of L0 (directory and name strings) is the key comparison of L1 *)
@@ -362,13 +401,33 @@ Proof.
 Qed.
 
 (* ---- filterLatest --------------------------------------------------------------------------------- *)
-Lemma filter_latest_render l n : (forall e, In e l -> In (fst e) K) ->
+Lemma existsb_map' {A B} (f : A -> B) (g : B -> bool) l : existsb g (map f l) = existsb (fun x => g (f x)) l.
+Proof. induction l; simpl; auto. rewrite IHl. reflexivity. Qed.
+Lemma existsb_ext_in' {A} (f g : A -> bool) l : (forall x, In x l -> f x = g x) -> existsb f l = existsb g l.
+Proof. induction l; simpl; intros H; auto. rewrite H, IHl; auto. Qed.
+Definition plain_in (l : list sent) : Prop := forall e, In e l -> In (fst e) K /\ k_tmp (fst e) = false.
+Lemma drop_compacted_render l : plain_in l -> drop_compacted loc (map render_ent l) = map render_ent (sdrop_compacted l).
+Proof.
+  intros H. unfold drop_compacted, sdrop_compacted. rewrite filter_map_comm. f_equal.
+  apply filter_ext_in'. intros e He. f_equal. rewrite existsb_map'. unfold sdropped.
+  destruct (H e He) as [Ke Te].
+  transitivity (existsb (fun m : sent => negb (k_c (fst e)) && skey_eqb (twin (fst e)) (fst m)) l).
+  - apply existsb_ext_in'. intros m Hm. destruct (H m Hm) as [Km Tm].
+    change (fpath loc (e_dir (render_ent m)) (e_name (render_ent m))) with (rpath (fst m)).
+    change (fpath loc (e_dir (render_ent e)) (e_name (render_ent e))) with (rpath (fst e)).
+    apply nk_orig; auto.
+  - clear. induction l as [|m l IH]; simpl; [rewrite andb_false_r; reflexivity|].
+    rewrite IH. destruct (negb (k_c (fst e))); reflexivity.
+Qed.
+Lemma sdrop_in l e : In e (sdrop_compacted l) -> In e l.
+Proof. unfold sdrop_compacted. intros H. apply filter_In in H. apply H. Qed.
+Lemma filter_latest_render l n : plain_in l ->
   filter_latest loc (map render_ent l) n = map render_ent (sfilter_latest l n).
 Proof.
-  intros H. unfold filter_latest, sfilter_latest.
+  intros H. unfold filter_latest, sfilter_latest. rewrite drop_compacted_render by auto.
   rewrite map_map.
   rewrite (map_ext_in (fun x => (ts_of loc (render_ent x), render_ent x)) (fun x => (fun p => (fst p, render_ent (snd p))) (sts_of x, x))).
-  2:{ intros e He. simpl. f_equal. unfold ts_of, sts_of. apply nk_scan. auto. }
+  2:{ intros e He. simpl. f_equal. unfold ts_of, sts_of. apply sdrop_in in He. apply nk_scan; apply H; auto. }
   rewrite <- (map_map (fun e => (sts_of e, e)) (fun p => (fst p, render_ent (snd p)))).
   rewrite sort_desc_map. simpl. rewrite map_map. simpl. rewrite <- (map_map snd render_ent). rewrite firstn_map. reflexivity.
 Qed.
@@ -456,10 +515,16 @@ Qed.
 Lemma sfilter_latest_in l n e : In e (sfilter_latest l n) -> In e l.
 Proof.
   unfold sfilter_latest. intros H. apply firstn_incl in H. apply in_map_iff in H. destruct H as [[t x] [E I]]. simpl in E. subst.
-  eapply Permutation_in in I; [|apply sort_desc_perm]. apply in_map_iff in I. destruct I as [y [E I]]. inversion E; subst. auto.
+  eapply Permutation_in in I; [|apply sort_desc_perm]. apply in_map_iff in I. destruct I as [y [E I]]. inversion E; subst.
+  apply sdrop_in; auto.
 Qed.
 
-Lemma latest_of_render c s l : keys_in s -> cache_in c -> (forall e, In e l -> In (fst e) K) ->
+Lemma sglob_plain s d pk : keys_in s -> plain_in (sglob rname s d pk).
+Proof.
+  intros [KI _] e He. apply sglob_in in He. destruct He as [I [_ P]]. split; auto.
+  unfold in_patk in P. apply andb_prop in P. destruct P as [P _]. apply negb_true_iff in P. exact P.
+Qed.
+Lemma latest_of_render c s l : keys_in s -> cache_in c -> plain_in l ->
   latest_of loc (render_cache c) (render_fs s) (GOk (map render_ent l))
   = (render_cache (fst (slatest_of c s l)), snd (slatest_of c s l)) /\ cache_in (fst (slatest_of c s l)).
 Proof.
@@ -468,7 +533,7 @@ Proof.
   apply load_first_render; auto. intros e He. apply H. eapply sfilter_latest_in; eauto.
 Qed.
 
-Lemma recent_of_render c s l n : keys_in s -> cache_in c -> (forall e, In e l -> In (fst e) K) ->
+Lemma recent_of_render c s l n : keys_in s -> cache_in c -> plain_in l ->
   recent_of loc (render_cache c) (render_fs s) (GOk (map render_ent l)) n
   = (render_cache (fst (srecent_of c s l n)), snd (srecent_of c s l n)) /\ cache_in (fst (srecent_of c s l n)).
 Proof.
@@ -480,14 +545,20 @@ Qed.
 (* ---- operations ----------------------------------------------------------------------------------------- *)
 (* K is closed under the compaction twin and under re-keying to the DAGs of D (decidable) *)
 Definition closedb : bool :=
-  forallb (fun k => existsb (skey_eqb (twin k)) K && forallb (fun d' => existsb (skey_eqb (rekey d' k)) K) D) K.
+  forallb (fun k => existsb (skey_eqb (twin k)) K && existsb (skey_eqb (tmpk (twin k))) K
+                    && forallb (fun d' => existsb (skey_eqb (rekey d' k)) K) D) K.
 Hypothesis KC : closedb = true.
 Lemma existsb_skey k : existsb (skey_eqb k) K = true -> In k K.
 Proof. intros H. apply existsb_exists in H. destruct H as [x [I E]]. apply skey_eqb_eq in E. subst. auto. Qed.
 Lemma twin_in k : In k K -> In (twin k) K.
 Proof.
   intros H. unfold closedb in KC. rewrite forallb_forall in KC. specialize (KC k H). apply andb_prop in KC.
-  destruct KC as [A _]. apply existsb_skey; auto.
+  destruct KC as [A _]. apply andb_prop in A. destruct A as [A _]. apply existsb_skey; auto.
+Qed.
+Lemma tmp_twin_in k : In k K -> In (tmpk (twin k)) K.
+Proof.
+  intros H. unfold closedb in KC. rewrite forallb_forall in KC. specialize (KC k H). apply andb_prop in KC.
+  destruct KC as [A _]. apply andb_prop in A. destruct A as [_ A]. apply existsb_skey; auto.
 Qed.
 Lemma rekey_in k d' : In k K -> In d' D -> In (rekey d' k) K.
 Proof.
@@ -506,7 +577,7 @@ Definition op_in (o : op) : Prop :=
   end.
 Definition wr_in (w : option swriter) : Prop :=
   match w with
-  | Some w => In (sw_key w) K /\ k_c (sw_key w) = false /\ match sw_fd w with Some k => In k K | None => True end
+  | Some w => In (sw_key w) K /\ (k_c (sw_key w) = false /\ k_tmp (sw_key w) = false) /\ match sw_fd w with Some k => In k K | None => True end
   | None => True
   end.
 Definition state_in (h : sstate) : Prop :=
@@ -533,25 +604,38 @@ Proof.
 Qed.
 
 Lemma fname_rekey k d' : replace1 (rname k) (prefix_of (k_dag k)) (prefix_of d') = rname (rekey d' k).
-Proof. unfold rname, fname. simpl. apply replace1_prefix. Qed.
+Proof. unfold rname, fname. cbn [rekey k_dag k_stamp k_r8 k_c k_tmp]. rewrite !sapp_assoc. apply replace1_prefix. Qed.
+
+Lemma sopen_in st k now : In k K -> Forall prim_in (sopen st k now).
+Proof.
+  intros H. unfold sopen. apply Forall_app. split. { repeat constructor; simpl; auto. apply nk_dag; auto. }
+  destruct (sget st k) as [f|]; [|constructor]. destruct (ftail f); repeat constructor; simpl; auto.
+Qed.
+Lemma wopen_render s k now : keys_in s -> In k K ->
+  wopen (render_fs s) (rdir (k_dag k)) (rname k) now = map render_prim (sopen s k now).
+Proof.
+  intros KI H. unfold wopen, sopen. rewrite get_render by auto. rewrite map_app. f_equal.
+  destruct (sget s k) as [f|]; auto. destruct (ftail f); auto.
+Qed.
 
 Lemma sprims_in o h : state_in h -> op_in o -> Forall prim_in (sprims rname rpath o h).
 Proof.
   intros [KI [N [CI WI]]] P. destruct o; simpl in *.
-  - destruct P. repeat constructor; auto.
+  - destruct P. apply sopen_in; auto.
   - destruct (swr h) as [w|]; [|constructor]. destruct WI as [_ [_ W]]. destruct (sw_fd w); [|constructor].
     apply Forall_forall. intros x Hx. apply in_map_iff in Hx. destruct Hx as [c [E _]]. subst. simpl. auto.
   - destruct (swr h) as [w|]; [|constructor]. destruct WI as [W [_ _]].
     destruct (sget (sst h) (sw_key w)); [|constructor]. destruct (parse f); [|constructor].
+    constructor. { simpl. apply tmp_twin_in; auto. }
     constructor. { simpl. apply nk_dag; auto. }
-    constructor. { simpl. apply twin_in; auto. }
+    constructor. { simpl. apply tmp_twin_in; auto. }
     apply Forall_app. split.
-    + apply Forall_forall. intros x Hx. apply in_map_iff in Hx. destruct Hx as [c [E _]]. subst. simpl. apply twin_in; auto.
-    + repeat constructor; auto.
+    + apply Forall_forall. intros x Hx. apply in_map_iff in Hx. destruct Hx as [c [E _]]. subst. simpl. apply tmp_twin_in; auto.
+    + repeat constructor; auto. { apply tmp_twin_in; auto. } apply twin_in; auto.
   - destruct (sq_find rname rpath (sst h) d req) as [|k p] eqn:F; [constructor|].
     apply sq_find_key in F; auto. destruct F as [F _].
-    constructor. { simpl. apply nk_dag; auto. }
-    constructor. { simpl; auto. }
+    change (Forall prim_in (sopen (sst h) k now ++ map (fun c : chunk => SAppend k c now) (chunks_of {| p_req := req; p_tag := tag; p_size := size |}))).
+    apply Forall_app. split. { apply sopen_in; auto. }
     apply Forall_forall. intros x Hx. apply in_map_iff in Hx. destruct Hx as [c [E _]]. subst. simpl. auto.
   - destruct P as [P1 P2]. destruct (shas_dir (sst h) d); [|constructor].
     constructor; [simpl; auto|]. apply Forall_app. split; [|repeat constructor; auto].
@@ -566,20 +650,23 @@ Lemma prims_render o h : state_in h -> op_in o ->
   prims loc dirhash o (render_state h) = map render_prim (sprims rname rpath o h).
 Proof.
   intros [KI [N [CI WI]]] P. destruct o; simpl in *.
-  - reflexivity.
+  - destruct P as [P1 P2]. rewrite <- (rname_plain d stamp (trunc8 req) false).
+    apply (wopen_render (sst h) (mkkey d stamp (trunc8 req) false) now); auto.
   - destruct (swr h) as [w|]; simpl; auto. destruct (sw_fd w); simpl; auto. rewrite map_map. reflexivity.
-  - destruct (swr h) as [w|]; simpl; auto. destruct WI as [W [C _]].
+  - destruct (swr h) as [w|]; simpl; auto. destruct WI as [W [[C T] _]].
     rewrite get_render by auto. destruct (sget (sst h) (sw_key w)); simpl; auto. destruct (parse f); simpl; auto.
-    rewrite nk_twin by auto. rewrite map_app, map_map. reflexivity.
-  - rewrite q_find_render by auto. destruct (sq_find rname rpath (sst h) d req) as [|k p]; simpl; auto.
-    rewrite map_map. reflexivity.
-  - destruct P as [P1 P2]. fold (rdir d). rewrite has_dir_render by auto. destruct (shas_dir (sst h) d); simpl; auto.
+    rewrite nk_twin by auto. rewrite <- (rname_tmpk (twin (sw_key w))) by reflexivity. rewrite map_app, map_map. reflexivity.
+  - rewrite q_find_render by auto. destruct (sq_find rname rpath (sst h) d req) as [|k p] eqn:F; simpl; auto.
+    destruct (sq_find_key _ _ _ _ _ KI F) as [Fk _].
+    rewrite get_render by auto. rewrite map_app, map_map.
+    destruct (sget (sst h) k) as [f|]; [destruct (ftail f)|]; reflexivity.
+  - destruct P as [P1 P2]. rewrite (nk_yaml d P1), (nk_yaml d' P2). fold (rdir d). rewrite has_dir_render by auto. destruct (shas_dir (sst h) d); simpl; auto.
     change (pat_all d) with (pat_of d PAll). fold (rdirpat d). rewrite glob_render; simpl; auto.
     f_equal. rewrite map_app, !map_map. f_equal. apply map_ext_in. intros e He. simpl.
     unfold e_dir, e_name. simpl. apply sglob_in in He. destruct He as [_ [Ed _]]. rewrite <- Ed at 1. rewrite fname_rekey. reflexivity.
   - unfold glob_list. change (pat_all d) with (pat_of d PAll). fold (rdirpat d). rewrite glob_render; simpl; auto.
     rewrite filter_map_comm, !map_map. reflexivity.
-  - reflexivity.
+  - rewrite rname_plain. reflexivity.
 Qed.
 
 Lemma track_fd_render fd p : (match fd with Some k => In k K | None => True end) -> prim_in p ->
@@ -616,7 +703,8 @@ Proof.
   pose proof (dirs_nodup_run_sprims (sprims rname rpath o h) (sst h) N) as N'.
   unfold apply, sapply. rewrite PR. simpl hfs. rewrite RR.
   destruct o.
-  - simpl in P. destruct P as [P1 P2]. split; [reflexivity|]. repeat split; simpl; auto; try apply KI'.
+  - simpl in P. destruct P as [P1 P2]. split; [rewrite <- (rname_plain d stamp (trunc8 req) false); reflexivity|].
+    repeat split; simpl; auto; try apply KI'.
   - destruct (track_wr_render (swr h) (sprims rname rpath (OWrite tag size now) h) WI PI) as [E W']. simpl hwr. rewrite E.
     split; [reflexivity|]. repeat split; simpl; auto; apply KI'.
   - simpl hwr. destruct (swr h) as [w|] eqn:EW; simpl.
@@ -646,7 +734,7 @@ Lemma q_latest_render c s d day : keys_in s -> dirs_nodup s -> cache_in c -> In 
 Proof.
   intros KI N CI H P. unfold q_latest, sq_latest.
   change (pat_latest d day) with (pat_of d (PLatest day)). fold (rdirpat d). rewrite glob_render by auto.
-  apply latest_of_render; auto. intros e He. apply sglob_in in He. destruct He as [I _]. destruct KI as [KI _]. auto.
+  apply latest_of_render; auto. apply sglob_plain; auto.
 Qed.
 Lemma q_recent_render c s d n : keys_in s -> dirs_nodup s -> cache_in c -> In d D ->
   q_recent loc dirhash (render_cache c) (render_fs s) d n
@@ -654,7 +742,7 @@ Lemma q_recent_render c s d n : keys_in s -> dirs_nodup s -> cache_in c -> In d 
 Proof.
   intros KI N CI H. unfold q_recent, sq_recent.
   change (pat_all d) with (pat_of d PAll). fold (rdirpat d). rewrite glob_render; simpl; auto.
-  apply recent_of_render; auto. intros e He. apply sglob_in in He. destruct He as [I _]. destruct KI as [KI _]. auto.
+  apply recent_of_render; auto. apply sglob_plain; auto.
 Qed.
 
 Lemma state_in_init : state_in s_init.
